@@ -116,10 +116,11 @@ def c07_props(**p):
         shadows(c)
         idx = c.int("i0", lo=1)
         sym = syms[c.choice("el0", len(syms))] if len(syms) > 1 else syms[0]
-        keys = [K for K in ("CHG", "RAD", "MASS") if c.flag(f"has{K}") and not (K == "MASS" and sym in ("D", "T"))]
+        keys = [K for K in ("CHG", "RAD", "MASS") if c.flag(f"has{K}")]
         perms = list(itertools.permutations(keys))
         order = perms[c.choice("order", len(perms))] if len(perms) > 1 else tuple(keys)
-        vals = {K: sym_value(c, K, K.lower()) for K in keys}
+        # on a D/T atom only the explicit default MASS=0 is written (any other value would contradict the symbol)
+        vals = {K: (c.int("mass", 0, 0) if (K == "MASS" and sym in ("D", "T")) else sym_value(c, K, K.lower())) for K in keys}
         extra, pos = None, None
         if p.get("extra", True):
             xk = c.choice("xk", len(V3000_ATOM_KEYWORDS) + 1)
@@ -330,6 +331,11 @@ def c08(**p):
                 ccc[a] = 1 + c.choice("stale_code", 7)
                 if not chg_entries and not rad_entries:       # nothing supersedes: the code counts
                     chg[a], rad[a] = CODE_MEANING[ccc[a]]
+        if mode == "stale" and p.get("with_iso"):
+            a = c.choice("iso_atom", n)
+            if elements[a] not in ("D", "T"):
+                mass[a] = c.int(f"mass{a}", 1)
+                iso_entries.append((a + 1, mass[a]))
         if mode in ("iso", "layout"):
             for a in range(n):
                 if elements[a] not in ("D", "T") and (mode == "layout" or c.flag(f"hi{a}")):
@@ -355,7 +361,7 @@ def c08(**p):
         groups = [prop_lines(c, "CHG", chg_entries, "chg") if "CHG" in gc else fixed_lines("CHG", chg_entries),
                   prop_lines(c, "RAD", rad_entries, "rad") if "RAD" in gc else fixed_lines("RAD", rad_entries),
                   prop_lines(c, "ISO", iso_entries, "iso") if "ISO" in gc else fixed_lines("ISO", iso_entries)]
-        if mode == "layout":
+        if mode == "layout" or (mode == "stale" and p.get("with_iso")):
             perms = list(itertools.permutations(range(3)))
             groups = [groups[i] for i in perms[p["grouporder"] if "grouporder" in p else c.choice("grouporder", 6)]]
         plines = [ln for g in groups for ln in g]
@@ -473,10 +479,13 @@ def c06_v2000(**p):
         rad = [(a + 1, mol.rad[a]) for a in range(n) if mol.rad[a] is not None]
 
         def render(alt):
-            al = [v2000_atom_line(mol.elements[a], (1.5 * a if alt else 0.0, -0.25 if alt else 0.0, 0.0)) for a in range(n)]
+            codes = [0] * n
+            if alt and p.get("codes"):
+                codes = [(0, 1, 2, 3, 5, 6, 7)[c.choice(f"ccc{a}", 7)] for a in range(n)]      # charge codes only (4 = radical is identity data)
+            al = [v2000_atom_line(mol.elements[a], (1.5 * a if alt else 0.0, -0.25 if alt else 0.0, 0.0), ccc=codes[a]) for a in range(n)]
             bl = [v2000_bond_line(a + 1, b + 1, c.int(f"bt{a}_{b}") if alt else 1, stereo=(1 if alt and k == 0 else 0)) for k, (a, b) in enumerate(blist)]
             pl = []
-            chg = [(a + 1, c.int(f"chg{a}", -15, 15)) for a in range(n)] if alt else []
+            chg = [(a + 1, c.int(f"chg{a}", -15, 15)) for a in range(n)] if alt and not p.get("codes") else []
             pl += fixed_lines("CHG", chg) if chg else []
             pl += fixed_lines("RAD", rad) + fixed_lines("ISO", iso)
             return v2000_text(al, bl, pl, header=("name", "  PROG", "comment") if alt else ("", "", ""), eol="\r\n" if alt and p.get("crlf") else "\n")
